@@ -15,3 +15,20 @@ for d in sorted(root.iterdir()):
         res.append(f"{c}: **{tag}**" + (f" (`{first[:110]}`)" if first and tag == "caught" else ""))
     clean = lambda s: " ".join(str(s).split()).replace("|", "/")  # noqa: E731
     print(f"| `seeded/{d.name}` | {m.get('property')} | {clean(m.get('summary', ''))[:260]} | {clean(m.get('needs', ''))[:200]} | {'; '.join(res)} |")
+
+
+def into_design():
+    import io, contextlib, runpy
+    buf = io.StringIO()
+    with contextlib.redirect_stdout(buf):
+        runpy.run_path(__file__, run_name="table")
+    d = Path(__file__).resolve().parent.parent / "DESIGN.md"
+    t = d.read_text()
+    a, b = t.index("<!-- SEEDED-TABLE-BEGIN -->"), t.index("<!-- SEEDED-TABLE-END -->")
+    d.write_text(t[:a] + "<!-- SEEDED-TABLE-BEGIN -->\n" + buf.getvalue() + t[b:])
+
+
+if __name__ == "__main__":
+    import sys
+    if "--design" in sys.argv:
+        into_design()
